@@ -130,15 +130,17 @@ var newAppMu sync.Mutex
 // os.Exit(1) when loading fails, which would kill the harness instead of yielding a verdict); a load failure panics
 // with a recognisable message so that callers can judge it.
 func newApp(db dbm.DB, home string, upgrades int) *app.App {
-	newAppMu.Lock()
+	var a *app.App
 	if upgrades > 0 && upgrades < len(fullUpgrades) {
+		// "old binary": only C19 does this, single-threaded; the package-level list is swapped under a lock
+		newAppMu.Lock()
 		app.Upgrades = fullUpgrades[:upgrades]
-	} else {
+		a = app.New(log.NewNopLogger(), db, nil, false, simtestutil.NewAppOptionsWithFlagHome(home), baseapp.SetChainID(ChainID))
 		app.Upgrades = fullUpgrades
+		newAppMu.Unlock()
+	} else {
+		a = app.New(log.NewNopLogger(), db, nil, false, simtestutil.NewAppOptionsWithFlagHome(home), baseapp.SetChainID(ChainID))
 	}
-	a := app.New(log.NewNopLogger(), db, nil, false, simtestutil.NewAppOptionsWithFlagHome(home), baseapp.SetChainID(ChainID))
-	app.Upgrades = fullUpgrades
-	newAppMu.Unlock()
 	if err := a.LoadLatestVersion(); err != nil {
 		panic(fmt.Errorf("NODE CANNOT START: loading the latest version failed: %w", err))
 	}
